@@ -80,7 +80,8 @@ func itoa(n int) string {
 }
 
 func netSleep(ctx context.Context, d time.Duration) error {
-	if d <= 0 {
+	// (a finished context is seen here, not through a select with two ready cases, whose choice is the runtime's)
+	if d <= 0 || ctx.Err() != nil {
 		return ctx.Err()
 	}
 	t := verifsim.BeforeBlock(6)
